@@ -50,6 +50,22 @@ pub fn truncation_problem(text: &str) -> Option<(String, String)> {
             let toks = reflex::code_tokens(text);
             let outside: Vec<&reflex::Tok> = toks.iter().filter(|t| t.start < l || t.end > r).collect();
             if outside.is_empty() {
+                // nothing lies outside the root: the tokens the parser was given must also be the tokens of
+                // the text (a token that swallows neighbouring text hides it from the grammar just as well)
+                let mine: Vec<(usize, usize)> = toks.iter().map(|t| (t.start, t.end)).collect();
+                let theirs: Vec<(usize, usize)> = match guarded(|| Lexer::new(text).map(|(l, _, r)| (l, r)).collect::<Vec<_>>()) {
+                    | Ok(v) => v,
+                    | Err(_) => return None,
+                };
+                if mine != theirs && !toks.iter().any(|t| t.kind == K::StrayClose) {
+                    let k = mine.iter().zip(theirs.iter()).position(|(a, b)| a != b).unwrap_or(mine.len().min(theirs.len()));
+                    let (a, b) = (mine.get(k).copied().unwrap_or((text.len(), text.len())), theirs.get(k).copied().unwrap_or((text.len(), text.len())));
+                    let kind = toks.get(k).map(|t| format!("{:?}", t.kind)).unwrap_or_else(|| "end".into());
+                    return Some((
+                        format!("accepted source: the lexer's token swallows text that the grammar never sees (at a token of kind {kind})"),
+                        format!("token #{k}: the text has {:?} at {}..{}, the lexer produced one token {:?} at {}..{}", &text[a.0..a.1.min(text.len())], a.0, a.1, &text[b.0..b.1.min(text.len())], b.0, b.1),
+                    ));
+                }
                 None
             } else {
                 let t = outside[0];
